@@ -558,3 +558,59 @@ def d5(proj, rep):
                     rep.ok('D5', q, f'`{ast.unparse(s2)[:70]}` keeps the caller\'s order', m, s2)
     rep.count('D5.target_assignments', n)
     return n
+
+
+# ------------------------------------------------------------------------------------------------ Q5
+RULE_Q5 = ('Q5: in make_asymmetric_error_set every count variable ranges over 0..Q inclusive, where Q is the number of qubits still free '
+           '(num_qubit minus the counts of the enclosing loops): the loop is `range(min(Q+1, <weighted bound>))` up to polynomial identity. '
+           'A bound of Q drops the operators that act on every free qubit; the sibling make_error_list enumerates them '
+           '(combinations(range(num_qubit), r) for r < distance).')
+
+
+def q5(proj, rep):
+    from ..poly import Poly, SymEval, UNK
+    rep.rule('Q5', RULE_Q5)
+    f = proj.func('numqi.qec._internal.make_asymmetric_error_set')
+    m = f.module
+    rep.touch(m)
+    n = 0
+
+    def visit(body, outer):
+        nonlocal n
+        for st in body:
+            if isinstance(st, ast.For) and isinstance(st.target, ast.Name) and isinstance(st.iter, ast.Call) and isinstance(st.iter.func, ast.Name) \
+                    and st.iter.func.id == 'range' and len(st.iter.args) == 1 and isinstance(st.iter.args[0], ast.Call) \
+                    and isinstance(st.iter.args[0].func, ast.Name) and st.iter.args[0].func.id == 'min':
+                args = st.iter.args[0].args
+                names = ['num_qubit', 'distance'] + outer
+                se = SymEval({k: Poly.var(k) for k in names})
+                Q = Poly.var('num_qubit')
+                for o in outer:
+                    Q = Q - Poly.var(o)
+                cands = [se.ev(a) for a in args]
+                qb = [(a, c) for a, c in zip(args, cands) if isinstance(c, Poly) and 'num_qubit' in c.vars()]
+                n += 1
+                construct = f'{f.qual}[{st.target.id}]'
+                if len(qb) != 1:
+                    rep.undecided('Q5', construct, f'`{ast.unparse(st.iter)}`: qubit-count bound not identified', m, st.iter)
+                    n -= 1
+                else:
+                    a, c = qb[0]
+                    diff = c - Q
+                    cv = diff.const_value() if diff.is_const() else None
+                    if cv == 1:
+                        rep.ok('Q5', construct, f'`{ast.unparse(st.iter)}`: {st.target.id} reaches all {ast.unparse(a)}-1 free qubits', m, st.iter)
+                    elif cv is not None and cv < 1:
+                        rep.violation('Q5', construct, f'`{ast.unparse(st.iter)}`: {st.target.id} stops at {ast.unparse(a)}-1, one short of the '
+                                      f'free qubits ({"num_qubit" if not outer else "num_qubit-" + "-".join(outer)}): operators acting on '
+                                      f'every free qubit are never generated although they lie below the weighted bound', m, st.iter)
+                    else:
+                        rep.undecided('Q5', construct, f'`{ast.unparse(st.iter)}`: bound differs from the free-qubit count by a non-constant', m, st.iter)
+                        n -= 1
+                visit(st.body, outer + [st.target.id])
+            elif isinstance(st, (ast.For, ast.If, ast.While)):
+                visit(st.body, outer)
+                visit(getattr(st, 'orelse', []), outer)
+    visit(f.node.body, [])
+    rep.count('Q5.count_loops', n)
+    return n
